@@ -17,3 +17,11 @@ Print Assumptions escapeattr_roundtrip.
 Theorem hex_roundtrip : forall data, Forall (fun b => 0 <= b < 256) data -> deHexStr (hexStr data) = Ok data.
 Proof. exact Proofs.hex_roundtrip. Qed.
 Print Assumptions hex_roundtrip.
+
+(* bit fields (head.flags, head.macStyle, OS/2.fsType, OS/2.fsSelection, ...) are written as groups of binary digits
+   (misc/textTools.py num2binary) and read back with binary2num: every value that fits the field's width comes back *)
+From FV Require C03.ModelBinary C03.ProofsBinary.
+Theorem binary_roundtrip : forall l bits, 0 <= bits -> 0 <= l < 2 ^ bits ->
+  exists s, ModelBinary.num2binary l bits = Ok s /\ ModelBinary.binary2num s = l.
+Proof. exact ProofsBinary.binary_roundtrip. Qed.
+Print Assumptions binary_roundtrip.
